@@ -51,7 +51,7 @@ func (c *Caser) Identifierize(s string) string {
 
 	rIdent := []rune(ident)
 	if len(rIdent) > 0 {
-		if !unicode.IsLetter(rIdent[0]) || isNotCaseSensitiveLetter(rIdent[0]) {
+		if !unicode.IsLetter(rIdent[0]) || isNotCaseSensitiveLetter(rIdent[0]) || hasNoUpperCase(rIdent[0]) {
 			ident = "A" + ident
 		}
 	}
@@ -65,6 +65,12 @@ func (c *Caser) Identifierize(s string) string {
 
 func isNotCaseSensitiveLetter(r rune) bool {
 	return !unicode.IsUpper(r) && !unicode.IsLower(r)
+}
+
+// hasNoUpperCase reports whether r is a lower-case letter without an upper-case form (such as "ß"):
+// capitalizing it does not export the identifier.
+func hasNoUpperCase(r rune) bool {
+	return unicode.IsLower(r) && unicode.ToUpper(r) == r
 }
 
 func (c *Caser) Capitalize(s string) string {
